@@ -122,6 +122,17 @@ def check_components(chk, fi: FuncInfo) -> None:
     if popped_names and not pop_facts and w.body and w.body[0] is pop_st:
         # idiom B: current = worklist.pop() first; then every unvisited neighbour must be marked, pushed, recorded
         cur = next(iter(popped_names))
+        if not nb_loops:
+            # the neighbours of the popped vertex are consulted through next(<generator over graph[popped]>, default): one at most
+            for c in ast.walk(w):
+                if isinstance(c, ast.Call) and astq.callee_name(c) == "next" and c.args:
+                    gen = c.args[0]
+                    if isinstance(gen, ast.Name):
+                        d = [x for _, x in astq.assignments(w, gen.id) if x is not None]
+                        gen = d[0] if len(d) == 1 else gen
+                    if isinstance(gen, (ast.GeneratorExp, ast.ListComp)) and len(gen.generators) == 1 and norm(gen.generators[0].iter) == f"graph[{cur}]":
+                        chk.violation("components-walk", fi.site(c), f"pop-first walk: `{norm(c)[:80]}` hands out at most ONE unvisited neighbour of the vertex that was just popped; the vertex is gone from the worklist, so its other unvisited neighbours are reached only by luck and a branching group of crossing stems is split into several components", K(fi, "walk"))
+                        return
         if len(nb_loops) != 1 or norm(nb_loops[0].iter) != f"graph[{cur}]" or not isinstance(nb_loops[0].target, ast.Name):
             chk.error("components-walk", fi.site(w), "pop-first walk: loop over the neighbours of the popped vertex not found")
             return
@@ -263,6 +274,16 @@ def check_permutation_greedy(chk, fi: FuncInfo) -> None:
         if not sources:
             chk.error("greedy-perms", fi.site(pl), f"`{pl.iter.id}` is not bound inside the component loop")
             return
+    # a conditional expression offers either of its arms
+    flat = []
+    todo = list(sources)
+    while todo:
+        x = todo.pop(0)
+        if isinstance(x, ast.IfExp):
+            todo[:0] = [x.body, x.orelse]
+        else:
+            flat.append(x)
+    sources = flat
     all_ok = True
     for src in sources:
         if isinstance(src, ast.Call) and astq.dotted(src.func) in ("itertools.permutations", "permutations"):
@@ -524,17 +545,30 @@ def check_product(chk, fi: FuncInfo) -> None:
 # rules whose violations rest on positive evidence read off the current code (not on a mismatch with the pinned form)
 ROBUST = {
     "components-walk", "greedy-perms", "greedy-perms-skip", "greedy-outer", "greedy-available", "greedy-earlier", "greedy-earlier-exit", "greedy-mark",
-    "greedy-choice", "greedy-record", "product", "product-skip", "product-default",
+    "greedy-choice", "greedy-record", "product", "product-skip", "product-default", "list-handed-out",
 }
+
+
+def check_enumeration_stages(chk) -> bool:
+    """Components, permutations, first-fit, product, de-duplication, early exit: fact level first (the whole list on every
+    order type of <= 4 arcs, checks/c01e.py), the pinned-form stage rules as the fallback.  True when decided at fact level."""
+    from checks import c01e
+
+    fi = chk.repo.func(MOD, "BpSeq.all_dot_brackets")
+    chk.note_function(fi)
+    if c01.fact_first(chk, "enumeration", fi.where, c01e.enumeration_fact(chk)):
+        return True
+    check_components(chk, fi)
+    check_permutation_greedy(chk, fi)
+    check_product(chk, fi)
+    return False
 
 
 def check_enumeration(chk) -> None:
     fi = chk.repo.func(MOD, "BpSeq.all_dot_brackets")
     chk.note_function(fi)
     c01.check_conflict_graph(chk, fi)
-    check_components(chk, fi)
-    check_permutation_greedy(chk, fi)
-    check_product(chk, fi)
+    check_enumeration_stages(chk)
 
 
 def run(chk) -> None:
@@ -552,8 +586,18 @@ def run(chk) -> None:
     c01.check_regions(chk)
     c01.check_stems(chk)
     c01.check_fill(chk)
-    for rule in ("components-walk", "greedy-perms", "greedy-earlier", "greedy-mark", "greedy-choice", "product", "conflict-predicate"):
-        chk.floor(rule, 1)
+    # the list is a cached answer: a consumer that edits it in place changes what the object answers from then on
+    from checks import c12
+
+    if c12.foreign_mutations(chk, "list-handed-out", ("all_dot_brackets",)) == 0:
+        chk.ok("list-handed-out", "package", "no consumer of BpSeq.all_dot_brackets changes the cached list in place")
+    if not c01.decided(chk, "enumeration"):
+        for rule in ("components-walk", "greedy-perms", "greedy-earlier", "greedy-mark", "greedy-choice", "product"):
+            chk.floor(rule, 1)
+    else:
+        chk.floor("enumeration-fact", 1)
+    if not c01.decided(chk, "conflict-graph:BpSeq.all_dot_brackets"):
+        chk.floor("conflict-predicate", 1)
 
 
 MANIFEST_ENTRY = {
@@ -562,5 +606,5 @@ MANIFEST_ENTRY = {
     "levels, full cartesian product, default level 0, de-duplication, verified fill, early exit = [FCFS]. Each is a necessary condition for the list to be exactly "
     "the greedy-stable assignments; membership of the optimal and FCFS notations follows from C02/C01 by the Grundy lemma.",
     "note": "Trusted: the first-fit/Grundy lemma, itertools semantics. Not decided: cost for groups larger than 8; order of the list is C14's business.",
-    "technique": "static analysis: idiom-family shape rules with def-use roles over the ast, order-type truth table of the conflict test",
+    "technique": "static analysis: truth table over every order type of <= 4 stems - all_dot_brackets is interpreted from the ast (nothing of the library is imported or run) and its list compared with the set of Grundy colourings; every statement of the function must be reached by these classes, otherwise (size caps ...) the idiom-family shape rules with def-use roles decide",
 }
